@@ -31,7 +31,7 @@ class P(Prop):
             "add_flop_outputs x initial_values (None,'0','1',dict) x remove_unloaded, against cycle-accurate simulation; "
             "non-trivial = at least one state pair / flop")
     assumptions = ["set-iteration order inside the patched run is the model's ordBy(seed) family"]
-    budget = {"quick": (120, 120), "thorough": (2000, 2000)}
+    budget = {"quick": (360, 360), "thorough": (2000, 2000)}
 
     def gen_unroll(self):
         rng = self.rng
